@@ -336,14 +336,14 @@ void ThreadPool::resizeLocked(ssize_t sn) {
     OnceFunction task;
     while (rings_[i].try_pop(task)) {
       DISPENSO_VERIF_HOOK("pool.take.ring", this, 2, i);
-      task();
+      executeNext(std::move(task));
     }
   }
   for (size_t i = 0; i < stealRings_.size(); ++i) {
     OnceFunction task;
     while (stealRings_[i].try_pop(task)) {
       DISPENSO_VERIF_HOOK("pool.take.steal", this, 2, i);
-      task();
+      executeNext(std::move(task));
     }
   }
 
@@ -447,14 +447,14 @@ ThreadPool::~ThreadPool() {
     OnceFunction task;
     while (rings_[i].try_pop(task)) {
       DISPENSO_VERIF_HOOK("pool.take.ring", this, 2, i);
-      task();
+      executeNext(std::move(task));
     }
   }
   for (size_t i = 0; i < stealRings_.size(); ++i) {
     OnceFunction task;
     while (stealRings_[i].try_pop(task)) {
       DISPENSO_VERIF_HOOK("pool.take.steal", this, 2, i);
-      task();
+      executeNext(std::move(task));
     }
   }
   DISPENSO_VERIF_HOOK("pool.dtor.end", this, 0, 0);
